@@ -273,6 +273,11 @@ func readNextAtV1(r *MMapReader, offset uint64) ([]byte, error) {
 		return nil, fmt.Errorf("failed reading record header at offset %d in mmap reader for '%s': %w", offset, r.path, err)
 	}
 
+	err = r.checkRecordFits(offset, RecordHeaderSizeBytesV1V2, payloadSizeUncompressed, payloadSizeCompressed, false)
+	if err != nil {
+		return nil, &recordHeaderError{fmt.Sprintf("failed reading record header at offset %d in mmap reader for '%s': %v", offset, r.path, err), err}
+	}
+
 	expectedBytesRead, recordBuffer := allocateRecordBuffer(r.header, payloadSizeUncompressed, payloadSizeCompressed)
 	numRead, err = r.mmapReader.ReadAt(recordBuffer, int64(offset+RecordHeaderSizeBytesV1V2))
 	if err != nil {
@@ -317,7 +322,7 @@ func readNextAtV2(r *MMapReader, offset uint64) ([]byte, error) {
 	headerByteReader := NewCountingByteReader(bufio.NewReader(bytes.NewReader(headerBufPooled[:numRead])))
 	payloadSizeUncompressed, payloadSizeCompressed, err := readRecordHeaderV2(headerByteReader)
 	if err != nil {
-		return nil, fmt.Errorf("failed reading record header at offset %d in mmap reader for '%s': %w", offset, r.path, err)
+		return nil, &recordHeaderError{fmt.Sprintf("failed reading record header at offset %d in mmap reader for '%s': %v", offset, r.path, err), err}
 	}
 
 	err = r.checkRecordFits(offset, int(headerByteReader.Count()), payloadSizeUncompressed, payloadSizeCompressed, false)
